@@ -23,6 +23,11 @@ def run(ctx):
                 for st in progsuite.STORES:
                     for inp in (proggen.INPUTS[0], proggen.INPUTS[3]) if ctx.tier == 'quick' else proggen.INPUTS:
                         meta[progsuite.prog_case(cases, st, src, inp, progsuite.HOSTS[1], ast)] = stream
+            elif stream == 'pairs':
+                # every ordered operator pair: all inputs, stores alternating (both in the thorough tier)
+                for inp in proggen.INPUTS:
+                    for st in (progsuite.STORES if ctx.tier == 'thorough' else [rnd.choice(progsuite.STORES)]):
+                        meta[progsuite.prog_case(cases, st, src, inp, progsuite.HOSTS[1], ast)] = stream
             else:
                 for st in progsuite.STORES:
                     for inp in rnd.sample(proggen.INPUTS, 2 if ctx.tier == 'quick' else len(proggen.INPUTS)):
@@ -33,10 +38,50 @@ def run(ctx):
     impl = vlib.run_impl(cases, 'c01', per_case_s=5.0)
     model = vlib.run_model(cases, 'c01') if drv_ok else {}
     stats = progsuite.compare_prog(ctx, cases, meta, impl, model, want_balance=False)
+    # tie of the structured compiler Abs.compile (the object of theorem C01_compile_correct) to the real build:
+    # DUMP (lex+parse+build of the printed source, both stores) must equal COMPILE (Abs.compile of the AST) line for line
+    if progs and drv_ok:
+        from gen import compilegen
+        rnd2 = random.Random(ctx.seed * 31 + 5)
+        g2 = compilegen.Gen2(rnd2)
+        cprogs = [(src, ast) for src, ast, root, stream in progs]
+        for _ in range(1500 if ctx.tier == 'quick' else 30000):
+            root = proggen.fix_nodes(g2.body(rnd2.randint(1, 4)))
+            cprogs.append((proggen.pp(root), compilegen.program_term(root)))
+        for root in proggen.enumerate_small(1 if ctx.tier == 'quick' else 2, compilegen.SMALL_OPS):
+            root = compilegen.fix_property(root)
+            cprogs.append((proggen.pp(root), compilegen.program_term(root)))
+        seen, comp, dump = set(), [], []
+        for src, ast in cprogs:
+            if (src, ast) in seen:
+                continue
+            seen.add((src, ast))
+            k = str(len(comp))
+            comp.append(['COMPILE', 'k' + k, ast])
+            for st in progsuite.STORES:
+                dump.append(['DUMP', f'k{k}:{st}', st, vlib.esc(src)])
+        di = vlib.run_impl(dump, 'c01dump', per_case_s=5.0)
+        cm = vlib.run_model(comp, 'c01comp')
+        wf = vlib.run_model([['WFCHECK', c[1], c[2]] for c in comp], 'c01wf')
+        ndiff = 0
+        for c in comp:
+            m = cm.get(c[1], 'missing')
+            for st in progsuite.STORES:
+                r = di.get(f'{c[1]}:{st}', 'missing')
+                if r != m:
+                    ndiff += 1
+                    d = [x for x in dump if x[1] == f'{c[1]}:{st}'][0]
+                    ctx.fail('corr', d + [c[2]], impl=r[:500], model=m[:500], expect=m[:300], note=f'the real build differs from the structured compiler Abs.compile (COMPILE suite) on {vlib.unesc(d[3])!r}')
+        nwf = sum(1 for c in comp if (wf.get(c[1]) or '').startswith('wf=true'))
+        stats['COMPILE=DUMP programs'] = len(comp)
+        stats['COMPILE!=DUMP'] = ndiff
+        stats['programs satisfying WFProgram (hypothesis of C01_compile_correct)'] = nwf
+        ctx.evaluations += len(dump)
+        ctx.oblige('suite COMPILE (real build = Abs.compile on every generated program, both stores)', 'suite', ndiff == 0, f'{ndiff} difference(s)')
     for c in cases:
         ctx.distinct.add((c[3], c[4]))
     ctx.oblige('reference evaluator available for every case (driver built, AST readable)', 'suite', drv_ok and not any(k.startswith('spec-BAD') for k in stats), str(stats))
-    ctx.rule = ('PROG cases: every AST of the core language with <= %d operator nodes over a reduced constructor set (exhaustive) and random ASTs of depth <= 4 over all constructs, printed with minimal parentheses according to the language table, '
+    ctx.rule = ('PROG cases: every AST of the core language with <= %d operator nodes over a reduced constructor set (exhaustive) every ordered pair of operators (inner operator in every operand position of the outer one, all inputs) and random ASTs of depth <= 4 over all constructs, printed with minimal parentheses according to the language table, '
                 'x {SimpleGarnishData, BasicGarnishData} x initial input values {unit, 0, 5, keyed list, pair, text} x scripted hosts; each lexed, parsed, built and executed to completion by the real code and compared with the Lean reference evaluator evalF on the AST '
                 '(value up to expression-table indices, host-call trace); distinct = distinct (source, input).' % (1 if ctx.tier == 'quick' else 2))
     ctx.suites = {'PROG': len(cases), 'outcomes': stats}
@@ -44,6 +89,7 @@ def run(ctx):
         ctx.distribution = progsuite.feature_distribution(progs)
     for c in cases[:: max(1, len(cases) // 6)][:6]:
         ctx.sample({'source': vlib.unesc(c[3]), 'store': c[2], 'input': c[4], 'host': c[5], 'impl': impl.get(c[1]), 'evalF': model.get(c[1])}, cap=80)
-    ctx.trusted += ['reference evaluator Spec/Eval.lean (evalF) is the statement of what the source means; its operator semantics are the value-level definitions of Abs/Ops.lean (related to exact specs by C09/C11/C12 theorems)',
+    ctx.trusted += ['C01_compile_correct (Props/C01Compile.lean) is about Abs.compile; the real build is tied to Abs.compile by the COMPILE suite on every generated program; WFProgram (its hypothesis) excludes the shapes listed in DESIGN.md, counted in suites.outcomes',
+                    'reference evaluator Spec/Eval.lean (evalF) is the statement of what the source means; its operator semantics are the value-level definitions of Abs/Ops.lean (related to exact specs by C09/C11/C12 theorems)',
                     'generator printer tools/gen/proggen.py (language operator table copy) — a wrong printer shows up as an oracle failure, never hides one',
                     'Lean float = hardware double; symbols are SipHash-1-3 values computed identically on both sides']
